@@ -47,6 +47,9 @@ type c16Write struct {
 // Stream.onBufferReleased: when the amount goes from above the threshold to at
 // or below it.
 type c16Stream struct {
+	nBA    int  // BufferedAmount calls so far
+	raceAt int  // the call after which the network drains everything (see BufferedAmount)
+	raceOn bool
 	r    *sim.Run
 	name string
 	hbp  []byte // heartbeat payload, to classify writes
@@ -191,10 +194,22 @@ func (s *c16Stream) Close() error {
 	return nil
 }
 
+// BufferedAmount reports the buffered amount. If raceAt selects this call and the buffer is above
+// the low threshold, the network drains everything (firing the low-threshold callback) right
+// AFTER the value was sampled: the caller acts on a value that is already stale, which is what a
+// real SCTP association does whenever acknowledgements arrive between a check and a wait.
 func (s *c16Stream) BufferedAmount() uint64 {
 	s.mu.Lock()
-	defer s.mu.Unlock()
-	return s.buffered
+	v := s.buffered
+	k := s.nBA
+	s.nBA++
+	race := s.raceOn && k == s.raceAt && v > s.lowTh
+	s.mu.Unlock()
+	if race {
+		s.r.Probe("flow/drain-between-check-and-wait")
+		s.Drain(1 << 62)
+	}
+	return v
 }
 
 func (s *c16Stream) SetReadDeadline(t time.Time) error {
